@@ -70,6 +70,7 @@ pub enum Gui {
     Position { fen: Option<String>, moves: Vec<String> },
     Go(GoSpec),
     Stop,
+    PonderHit,
     Quit,
 }
 
@@ -83,6 +84,8 @@ pub struct GoSpec {
     pub binc: Option<u64>,
     pub infinite: bool,
     pub searchmoves: Vec<String>,
+    /// `go ponder ...` (the engine searches the same way; `ponderhit` may follow)
+    pub ponder: bool,
 }
 
 impl GoSpec {
@@ -109,6 +112,7 @@ impl Gui {
             Gui::Go(g) => {
                 let mut s = "go".to_string();
                 if !g.searchmoves.is_empty() { s.push_str(" searchmoves "); s.push_str(&g.searchmoves.join(" ")); }
+                if g.ponder { s.push_str(" ponder"); }
                 if let Some(v) = g.wtime { s.push_str(&format!(" wtime {}", v)); }
                 if let Some(v) = g.btime { s.push_str(&format!(" btime {}", v)); }
                 if let Some(v) = g.winc { s.push_str(&format!(" winc {}", v)); }
@@ -119,6 +123,7 @@ impl Gui {
                 s
             }
             Gui::Stop => "stop".into(),
+            Gui::PonderHit => "ponderhit".into(),
             Gui::Quit => "quit".into(),
         }
     }
@@ -135,9 +140,10 @@ impl Gui {
             },
             Gui::Go(g) => {
                 let ms = |v: Option<u64>| v.map(Duration::from_millis);
-                UciCommand::Go { go: Go { search_moves: g.searchmoves.iter().map(|m| UciMove::from_str(m).expect("valid move text")).collect(), white_time: ms(g.wtime), black_time: ms(g.btime), white_increment: ms(g.winc), black_increment: ms(g.binc), depth: g.depth, move_time: ms(g.movetime), infinite: g.infinite, ..Go::default() } }
+                UciCommand::Go { go: Go { search_moves: g.searchmoves.iter().map(|m| UciMove::from_str(m).expect("valid move text")).collect(), white_time: ms(g.wtime), black_time: ms(g.btime), white_increment: ms(g.winc), black_increment: ms(g.binc), depth: g.depth, move_time: ms(g.movetime), infinite: g.infinite, ponder: g.ponder, ..Go::default() } }
             }
             Gui::Stop => UciCommand::Stop,
+            Gui::PonderHit => UciCommand::PonderHit,
             Gui::Quit => UciCommand::Quit,
         }
     }
